@@ -12,6 +12,9 @@ Body grammar (JSON lists; booleans may be 0/1 or true/false):
   ['nop'] ['rc',k] ['rn',k] ['sr',b] ['nest',b,B] ['fr',caught] ['cap'] ['seq',A,B] ['h',k,B]
   ['fx',form,[k..],[[k,k']..],B] ['fc',form,[k..],[[k,k']..],k] ['rp','d'|'n'|'r<k>',B]
   ['rwc','N'|'none'|k]
+  fx / fc take an optional last element [yes, no]: codes of the objects the predicate returns for the ids
+        in the table / for every other id (default ['T', 'F']); see VALS - any Python object, only its truth
+        value may matter
   form: 0 decorator on a function, 1 on an instance method (one class per scenario, one instance per
         distinct table, a decoy instance with the opposite table looked up first), 2/3 on a classmethod
         reached through the class / an instance (one base class, a subclass per table), 4/5 on a
@@ -23,6 +26,7 @@ import contextlib
 import itertools
 import logging
 import os
+import re
 import shutil
 import sys
 import tempfile
@@ -172,7 +176,7 @@ def ser(b):
         acc = ','.join(str(k) for k in b[2]) or '-'
         rais = ','.join('%d>%d' % (a, c) for a, c in b[3]) or '-'
         tail = ser(b[4]) if t == 'fx' else str(b[4])
-        return '%s %d %s %s %s' % (t, int(b[1]), acc, rais, tail)
+        return '%s %d %s %s %s/%s %s' % ((t, int(b[1]), acc, rais) + style_of(b) + (tail,))
     if t == 'rp':
         return 'rp %s %s' % (b[1], ser(b[2]))
     if t == 'rwc':
@@ -189,6 +193,30 @@ def case_line(case):
                                         cause_index(i) if k == 'chained' else 'N', k == 'chained')
                     for i, k in enumerate(case['kinds']))
     return req('run', B(case['flag']), case['path'], excs, ser(case['body']))
+
+
+class _Falsy:
+    def __bool__(self):
+        return False
+
+
+class _Truthy:
+    def __bool__(self):
+        return True
+
+
+# objects a predicate may return (code -> object); the driver knows the same codes
+VALS = {'T': True, 'F': False, 'N': None, 'o': object(), 'm': re.match('a', 'a'), 'i1': 1, 'i0': 0, 'i-3': -3,
+        's1': 'x', 's0': '', 'l1': [0], 'l0': [], 't2': (0, 0), 't0': (), 'b1': _Truthy(), 'b0': _Falsy()}
+# (answer for the ids in the table, answer for the others)
+STYLES = [('T', 'F'), ('i1', 'i0'), ('m', 'N'), ('t2', 't0'), ('l1', 'l0'), ('s1', 's0'), ('o', 'N'), ('b1', 'b0'),
+          ('i-3', 'F'), ('F', 'T'), ('N', 'o')]
+DEFAULT_STYLE = ('T', 'F')
+
+
+def style_of(b):
+    """the [yes, no] element of an fx / fc node"""
+    return tuple(b[5]) if len(b) > 5 else DEFAULT_STYLE
 
 
 def cause_index(k):
@@ -281,7 +309,7 @@ def render(body, spy):
             emit(b[2], ind, ctx)
         elif t == 'fx':
             j = len(filt)
-            filt.append((int(b[1]), tuple(b[2]), tuple((a, c) for a, c in b[3])))
+            filt.append((int(b[1]), tuple(b[2]), tuple((a, c) for a, c in b[3]), style_of(b)))
             # the attribute lookup (exception_filter.__get__) happens here, in program order
             fexpr = 'FILT[%d]' % j if int(b[1]) == 0 else 'OBJ[%d].pred' % j
             if spy:
@@ -295,7 +323,7 @@ def render(body, spy):
                 emit(b[4], ind + 1, ctx)
         elif t == 'fc':
             j = len(filt)
-            filt.append((int(b[1]), tuple(b[2]), tuple((a, c) for a, c in b[3])))
+            filt.append((int(b[1]), tuple(b[2]), tuple((a, c) for a, c in b[3]), style_of(b)))
             fexpr = 'FILT[%d]' % j if int(b[1]) == 0 else 'OBJ[%d].pred' % j
             if spy:
                 lines.append(p + 'with SPY.fc(%d, %d):' % (j, b[4]))
@@ -412,12 +440,12 @@ class Env:
             (one per table, plus a decoy) of ONE base class; the predicate reads the table from the function's
             closure / `self` / `cls` respectively."""
             FILT, OBJ = [None] * len(specs), [None] * len(specs)
-            forms = set(f for f, _, _ in specs)
+            forms = set(sp[0] for sp in specs)
             ids = range(len(E))
             if 1 in forms:
                 class Ignorer:
-                    def __init__(self, accept, raises):
-                        self.accept, self.raises = accept, raises
+                    def __init__(self, accept, raises, yes=True, no=False):
+                        self.accept, self.raises, self.yes, self.no = accept, raises, yes, no
 
                     @excutils.exception_filter
                     def pred(self, ex):
@@ -425,12 +453,12 @@ class Env:
                             if v is ex:
                                 if k in self.raises:
                                     raise E[self.raises[k]]
-                                return k in self.accept
-                        return False
+                                return self.yes if k in self.accept else self.no
+                        return self.no
                 insts = {}
             if forms & {2, 3}:
                 class IgnorerC:
-                    accept, raises = (), {}
+                    accept, raises, yes, no = (), {}, True, False
 
                     @excutils.exception_filter
                     @classmethod
@@ -439,54 +467,57 @@ class Env:
                             if v is ex:
                                 if k in cls.raises:
                                     raise E[cls.raises[k]]
-                                return k in cls.accept
-                        return False
+                                return cls.yes if k in cls.accept else cls.no
+                        return cls.no
                 subs = {}
             decoyed = set()
-            for j, (form, accept, raises) in enumerate(specs):
+            for j, (form, accept, raises, style) in enumerate(specs):
                 rd = dict(raises)
-                key = (accept, raises)
+                key = (accept, raises, style)
+                yes, no = VALS[style[0]], VALS[style[1]]
                 if form == 0:
                     @excutils.exception_filter
-                    def pred(ex, accept=accept, rd=rd):
+                    def pred(ex, accept=accept, rd=rd, yes=yes, no=no):
                         for k, v in enumerate(E):
                             if v is ex:
                                 if k in rd:
                                     raise E[rd[k]]
-                                return k in accept
-                        return False
+                                return yes if k in accept else no
+                        return no
                     FILT[j] = pred
                 elif form == 1:
                     if 1 not in decoyed:
                         decoyed.add(1)
-                        decoy = Ignorer(tuple(k for k in ids if k not in accept), {})
+                        decoy = Ignorer(tuple(k for k in ids if bool(yes if k in accept else no) is False), {})
                         with decoy.pred:
                             pass
                     if key not in insts:
-                        insts[key] = Ignorer(accept, rd)
+                        insts[key] = Ignorer(accept, rd, yes, no)
                     OBJ[j] = insts[key]
                 elif form in (2, 3):
                     if 2 not in decoyed:
                         decoyed.add(2)
-                        decoy = type('DecoyC', (IgnorerC,), {'accept': tuple(k for k in ids if k not in accept)})
+                        decoy = type('DecoyC', (IgnorerC,), {'accept': tuple(
+                            k for k in ids if bool(yes if k in accept else no) is False)})
                         with decoy.pred:
                             pass
                         with decoy().pred:
                             pass
                     if key not in subs:
-                        subs[key] = type('IgnorerC%d' % len(subs), (IgnorerC,), {'accept': accept, 'raises': rd})
+                        subs[key] = type('IgnorerC%d' % len(subs), (IgnorerC,),
+                                         {'accept': accept, 'raises': rd, 'yes': yes, 'no': no})
                     OBJ[j] = subs[key] if form == 2 else subs[key]()
                 else:
                     class IgnorerS:
                         @excutils.exception_filter
                         @staticmethod
-                        def pred(ex, accept=accept, rd=rd):
+                        def pred(ex, accept=accept, rd=rd, yes=yes, no=no):
                             for k, v in enumerate(E):
                                 if v is ex:
                                     if k in rd:
                                         raise E[rd[k]]
-                                    return k in accept
-                            return False
+                                    return yes if k in accept else no
+                            return no
                     OBJ[j] = IgnorerS if form == 4 else IgnorerS()
             return FILT, OBJ
 
@@ -738,7 +769,7 @@ def random_body(rng, budget, depth=0):
                 items.append(['h', k, sub])
             elif kind == 'fx':
                 acc, rais = rng.choice(PREDS)
-                items.append(['fx', rng.choice(FORMS), acc, rais, sub])
+                items.append(['fx', rng.choice(FORMS), acc, rais, sub, list(rng.choice(STYLES))])
             else:
                 items.append(['rp', rng.choice(['d', 'd', 'n', 'r0', 'r1', 'r2']), sub])
             budget -= 1 + sub_budget
@@ -758,7 +789,7 @@ def random_body(rng, budget, depth=0):
                 items.append(['cap'])
             elif c in (8, 9):
                 acc, rais = rng.choice(PREDS)
-                items.append(['fc', rng.choice(FORMS), acc, rais, k])
+                items.append(['fc', rng.choice(FORMS), acc, rais, k, list(rng.choice(STYLES))])
             elif c == 10:
                 items.append(['rwc', rng.choice(['N', 'none', 0, 1, 2])])
             else:
@@ -800,6 +831,20 @@ def gen_cases(ctx):
                     for kind in (KINDS if bound <= 1 else ['plain', 'chained']):
                         yield {'flag': 1, 'kinds': [kind, kind, 'plain'], 'path': 'file',
                                'body': w(['fc', bound, acc, rais, k])}, 'filter-call/%d' % bound
+    # every kind of answer object (True/False, 1/0, match object/None, tuple, list, str, object(), objects with
+    # __bool__, inverted) in every form, as context manager and called directly, for an accepted and another id
+    for form in FORMS:
+        for style in STYLES:
+            for acc, rais in PREDS[:4]:
+                for k in (0, 1):
+                    kinds = ['plain', 'base', 'plain']
+                    yield {'flag': 1, 'kinds': kinds, 'path': 'file',
+                           'body': ['fx', form, acc, rais, ['rn', k], list(style)]}, 'filter-answer/ctx'
+                    yield {'flag': 1, 'kinds': kinds, 'path': 'file',
+                           'body': ['h', k, ['fc', form, acc, rais, k, list(style)]]}, 'filter-answer/call'
+                    yield {'flag': 1, 'kinds': kinds, 'path': 'file',
+                           'body': ['h', 0, ['nest', 1, ['fx', form, acc, rais, ['rn', k], list(style)]]]}, \
+                        'filter-answer/in-sre'
     # several filters of one scenario: method forms share one class (two instances with different tables,
     # used interleaved: nested `with`, and one after the other), mixed with the other forms
     for f1 in FORMS:
@@ -1082,12 +1127,14 @@ class Spy:
         return _Probe(None, exit)
 
     def verdict(self, j, ex):
-        bound, acc, rais = self.filt[j]
+        bound, acc, rais, style = self.filt[j]
         k = self.view.index(ex)
         rais = dict(rais)
         if k in rais:
             return ('raises', rais[k])
-        return ('accept', None) if k in acc else ('reject', None)
+        # the predicate accepts when the object it returns is true (whatever object that is)
+        answer = VALS[style[0]] if k in acc else VALS[style[1]]
+        return ('accept', None) if answer else ('reject', None)
 
     def fx_out(self, i, j):
         r = self.rec(i)
@@ -1265,6 +1312,14 @@ def search(ctx, seeds, full=False):
                 for k in (0, 1):
                     yield {'flag': 1, 'kinds': ['chained', 'ctx', 'plain'], 'path': 'file',
                            'body': ['h', 0, ['fc', bound, acc, rais, k]]}
+        for form in FORMS:
+            for style in STYLES:
+                for acc, rais in PREDS[:4]:
+                    for k in (0, 1):
+                        yield {'flag': 1, 'kinds': ['plain', 'base', 'plain'], 'path': 'file',
+                               'body': ['fx', form, acc, rais, ['rn', k], list(style)]}
+                        yield {'flag': 1, 'kinds': ['plain', 'base', 'plain'], 'path': 'file',
+                               'body': ['h', k, ['fc', form, acc, rais, k, list(style)]]}
         for f1, f2 in ((1, 1), (3, 3), (1, 0), (2, 3), (5, 1)):
             for (a1, r1), (a2, r2) in itertools.product(PREDS[:4], PREDS[:4]):
                 for k in (0, 1):
@@ -1302,6 +1357,23 @@ def search(ctx, seeds, full=False):
             fails.append(Failure(small, {'kind': w2['kind'], 'what': w2['what']}, w2['class']))
             if len(fails) >= 6:
                 break
+        # the two entry points of one filter must agree: `with filt: raise e` ends normally exactly when
+        # `filt(e)` returns, for the same predicate and the same answer object
+        if len(fails) < 6:
+            for form, style, (acc, rais), k in itertools.product(FORMS, STYLES, PREDS[:4], (0, 1)):
+                ctx.evaluations += 1
+                c1 = {'flag': 1, 'kinds': ['plain', 'base', 'plain'], 'path': 'file',
+                      'body': ['fx', form, acc, rais, ['rn', k], list(style)]}
+                c2 = dict(c1, body=['h', k, ['fc', form, acc, rais, k, list(style)]])
+                o1, o2 = run_impl(env, c1).split(' ')[0], run_impl(env, c2).split(' ')[0]
+                if (o1 == 'out=ok') != (o2 == 'out=ok'):
+                    ctx.count('search/fail/filter-forms-disagree')
+                    fails.append(Failure(c1, {'kind': 'filter-forms-disagree',
+                                              'what': 'predicate answers %s for E%d: `with filt: raise E%d` gives %s '
+                                                      'but `filt(E%d)` gives %s' % (
+                                                          style[0] if k in acc else style[1], k, k, o1, k, o2),
+                                              'direct_call_case': c2}))
+                    break
     return fails
 
 
